@@ -1,4 +1,5 @@
 # SPDX-License-Identifier: MIT
+import warnings
 from copy import copy
 from enum import Enum
 from typing import Dict, Generator, List, Optional, Tuple, Union
@@ -190,7 +191,13 @@ class VariantMatcher:
 
         for cur_response in all_responses:
             try:
-                decoded_vals = cur_response.decode(response_bytes)
+                # mismatches of coded constants only cause warnings of
+                # category DecodeError. Treat them as errors here,
+                # because response objects featuring a different
+                # constant (e.g., the service ID) do not apply
+                with warnings.catch_warnings():
+                    warnings.simplefilter("error", category=DecodeError)
+                    decoded_vals = cur_response.decode(response_bytes)
             except DecodeError:
                 # the current response object could not decode the received
                 # data. Ignore it.
